@@ -408,7 +408,17 @@ fn check_index_content(ctx: &mut Ctx, env: &mut Env, expect: &BTreeSet<u64>, whe
 
 /// `alt`: a doc set predicted by the Lean updater model for a recorded finding, with its key
 fn check_index_content_alt(ctx: &mut Ctx, env: &mut Env, expect: &BTreeSet<u64>, alt: Option<(&BTreeSet<u64>, &str)>, when: &str, case: &Value) -> bool {
-    let dumps = match env.dump_searchable() {
+    // a merge finishing right now may garbage-collect a source between reading meta.json and
+    // opening its files: re-read the segment list before calling a segment unreadable
+    let mut attempt = env.dump_searchable();
+    for _ in 0..4 {
+        if attempt.is_ok() {
+            break;
+        }
+        std::thread::sleep(Duration::from_millis(50));
+        attempt = env.dump_searchable();
+    }
+    let dumps = match attempt {
         Ok(d) => d,
         Err(e) => {
             ctx.report.violation("oracle", "C04:segment-unreadable", format!("{when}: {e}"), case.clone());
@@ -893,6 +903,7 @@ fn case_uncommitted(ctx: &mut Ctx, case_seed: u64) {
     }
     tantivy::verif::set_segment_cut_docs(cut);
     let mut unc_metas: Vec<SegmentMeta> = vec![];
+    let mut script_complete = true;
     let result = catch_unwind(AssertUnwindSafe(|| {
         for _ in 0..nseg {
             env.add_docs(&mut rng, cut as usize);
@@ -900,9 +911,11 @@ fn case_uncommitted(ctx: &mut Ctx, case_seed: u64) {
                 std::thread::sleep(Duration::from_millis(4));
             } else {
                 // wait until the worker has registered the segment it just cut
-                for _ in 0..2000 {
+                let mut found = false;
+                for _ in 0..10_000 {
                     let (_, unc) = tantivy::verif::c04_registered_segment_metas(&env.writer);
                     if let Some(m) = unc.iter().find(|m| !seg_no.contains_key(&m.id().uuid_string())) {
+                        found = true;
                         let n = seg_no.len() + 1;
                         seg_no.insert(m.id().uuid_string(), n);
                         let (d, u) = env.dump_meta(m).unwrap();
@@ -911,6 +924,10 @@ fn case_uncommitted(ctx: &mut Ctx, case_seed: u64) {
                         break;
                     }
                     std::thread::sleep(Duration::from_millis(2));
+                }
+                if !found {
+                    // the worker was too slow (loaded machine): the script no longer mirrors the run
+                    script_complete = false;
                 }
             }
             if (del_mode == 1 || del_mode == 3) && rng.chance(2, 3) {
@@ -990,7 +1007,10 @@ fn case_uncommitted(ctx: &mut Ctx, case_seed: u64) {
     let after = env.searchable();
     // what the Lean updater model (first-source cursor) predicts for the published doc set
     let mut model_pub: Option<BTreeSet<u64>> = None;
-    if !by_policy {
+    if !script_complete {
+        ctx.report.count("uncommitted:registration-timeout");
+    }
+    if !by_policy && script_complete {
         let ans = ctx.model.ask(&format!("C04 sm {}", script.join(" ")));
         match ans.strip_prefix("pub=").and_then(|r| r.split("/pend=").next()).and_then(crate::model::parse_nat_list) {
             Some(v) => model_pub = Some(v.into_iter().collect()),
